@@ -233,6 +233,9 @@ def main():
         rc, out, err = sh([sys.executable, os.path.join(ROOT, "tools", "extract.py")])
         if rc != 0:
             die("extract.py failed: %s" % err[-1000:])
+        rc, out, err = sh([sys.executable, os.path.join(ROOT, "tools", "mkcopy.py")])
+        if rc != 0:
+            die("mkcopy.py failed: %s" % err[-1000:])
         try:
             cov["extraction_fallback"] = json.load(open(os.path.join(BUILD, "extract.json")))["fallback"]
         except Exception:
